@@ -804,6 +804,14 @@ func rulesC08(w *World, o *Out) {
 						continue
 					}
 					nSites++
+					if zs := zoneSource(c); zs != "" {
+						if v, isV := x.(ssa.Value); isV {
+							if use := zoneSensitiveUse(v, 0); use != "" {
+								o.Fail("C08.R1", w.FuncKey(f)+"|"+c.String()+"|calendar arithmetic in the node's local time zone", w.Pos(x.Pos()),
+									zs+" yields a time in the process's local zone (TZ environment variable / host configuration); "+use+" on it gives different results on nodes in different zones. Convert with .UTC() first", w.Path(rs, f)...)
+							}
+						}
+					}
 					src := nondetSource(c)
 					if src == "" {
 						continue
@@ -1347,4 +1355,61 @@ func memStateRule(w *World, o *Out, rule, what string, pkgs ...string) {
 	if n == 0 {
 		o.Pass(rule, strings.Join(pkgs, ",")+"|no in-memory state beside the store on runtime paths", "-", what)
 	}
+}
+
+// zoneSource: constructors whose result carries the process-local time zone.
+func zoneSource(c Callee) string {
+	if c.Pkg != "time" {
+		return ""
+	}
+	switch c.Name {
+	case "Unix", "UnixMilli", "UnixMicro":
+		if c.Recv == "" {
+			return "time." + c.Name
+		}
+	case "Local":
+		return "Time.Local"
+	case "LoadLocation", "ParseInLocation":
+		return "time." + c.Name
+	}
+	return ""
+}
+
+// zoneSensitiveUse: a calendar / formatting method is applied to v (or to a time derived from it by
+// zone-preserving arithmetic) before any conversion to UTC.
+func zoneSensitiveUse(v ssa.Value, depth int) string {
+	if depth > 6 || v.Referrers() == nil {
+		return ""
+	}
+	for _, r := range *v.Referrers() {
+		switch x := r.(type) {
+		case *ssa.Call:
+			c, ok := CalleeOf(x.Common())
+			if !ok || c.Pkg != "time" || c.Recv != "Time" {
+				continue
+			}
+			switch c.Name {
+			case "UTC":
+				continue
+			case "AddDate", "Date", "Year", "Month", "Day", "Weekday", "YearDay", "ISOWeek", "Hour", "Clock", "Format", "AppendFormat", "String", "Zone", "ZoneBounds", "MarshalJSON", "MarshalText", "GoString":
+				return "Time." + c.Name
+			case "Add", "Round", "Truncate":
+				if u := zoneSensitiveUse(x, depth+1); u != "" {
+					return u
+				}
+			}
+		case *ssa.Store:
+			// spilled local: follow the loads of the slot
+			if al, ok := x.Addr.(*ssa.Alloc); ok && x.Val == v {
+				for _, r2 := range *al.Referrers() {
+					if ld, ok := r2.(*ssa.UnOp); ok {
+						if u := zoneSensitiveUse(ld, depth+1); u != "" {
+							return u
+						}
+					}
+				}
+			}
+		}
+	}
+	return ""
 }
